@@ -227,6 +227,22 @@ pub fn run(tier: Tier, seed: u64) -> i32 {
                 }
             }
         }
+        // structural neighbours: the next program of the (sorted) corpus differs in structure, so its
+        // AST must not compare equal to this one
+        if let (Some((rast, _, _, _)), Some(other)) = (&reference, programs.get(pi + 1)) {
+            if normal_form(other) != normal_form(e) {
+                if let Ok(Ok(oast)) = guarded(|| scheme.parse(&render(other)).map_err(|e| e.to_string())) {
+                    run.count("neighbour_pairs", 1);
+                    if oast == *rast {
+                        run.violation(
+                            format!("{ID}:different-structures-equal-ast:{}", render(e)),
+                            format!("structurally different filters have equal ASTs: {:?} and {:?}", render(e), render(other)),
+                            case_json(&tag, "spelling-pair", &render(e), json!(e), None, json!({"other": render(other)})),
+                        );
+                    }
+                }
+            }
+        }
         if let Some((_, js, _, _)) = &reference {
             let nf = normal_form(e);
             let mut m = json_to_nf.lock().unwrap();
